@@ -185,7 +185,41 @@ C09PerBase(k) ==
   \o G_families(b4, b6) \o G_malformed(b4, b6) \o G_lists(b4, b6) \o G_ports(b4)
 
 Number(s) == [i \in 1..Len(s) |-> [ev |-> "vec", id |-> i] @@ s[i]]
+NumberSess(s) == [i \in 1..Len(s) |-> [ev |-> "sess", id |-> i] @@ s[i]]
+
+(* Sessions: one long-lived connection.  The policy of step 1 is in force when the client      *)
+(* connects; before each later step the operator replaces allow-list / secure flag at run time *)
+(* (UpdatePolicyOptions) and the client sends another request on the SAME connection.  Every   *)
+(* request is judged by the policy in force when it arrives (PolicyMC!Reconfigure).            *)
+SStep(c, port, list, secure) == [list |-> list, secure |-> secure, exp |-> AdmitVerdict(c, port, list, secure)]
+Sess(c, port, specs) ==
+  [group |-> "session", client |-> c, port |-> port,
+   steps |-> [i \in 1..Len(specs) |-> SStep(c, port, specs[i][1], specs[i][2])],
+   exp_conn |-> HostVerdict(c, specs[1][1])]
+InOutIn(c, in, out) == Sess(c, 900, << <<in, FALSE>>, <<out, FALSE>>, <<in, FALSE>> >>)
+G_sessions(b4, b6) ==
+     Cat(Map(<<1, 8, 24, 32>>, LAMBDA n :
+        <<InOutIn(Cl(b4, n), <<ECidr(b4, n, 0)>>, <<ECidr(FlipAt(b4, n), n, 0)>>),
+          InOutIn(Cl(Mapped(b4), n), <<ECidr(b4, n, 0)>>, <<ECidr(FlipAt(b4, n), n, 0)>>)>>))
+  \o Cat(Map(<<1, 64, 127, 128>>, LAMBDA n :
+        <<InOutIn(Cl(b6, n), <<ECidr(b6, n, n)>>, <<ECidr(FlipAt(b6, n), n, n)>>)>>))
+  \o <<InOutIn(Cl(b4, 0), <<>>, <<EIp(FlipAt(b4, 32), 0)>>),
+       InOutIn(Cl(b6, 0), <<>>, <<ECidr(b4, 0, 0)>>),
+       InOutIn(Cl(b4, 0), <<EIp(b4, 0)>>, <<EIp(FlipAt(b4, 7), 0), EBad("cidr_nolen")>>),
+       InOutIn(Cl(Mapped(b4), 1), <<EIp(b4, 0)>>, <<EBad("word")>>),
+       Sess(Cl(b4, 0), 900, << <<<<EIp(b4, 0)>>, FALSE>>, <<<<EIp(FlipAt(b4, 1), 0)>>, FALSE>>, <<<<>>, FALSE>>,
+                              <<<<ECidr(b6, 3, 0)>>, FALSE>>, <<<<ECidr(b6, 3, 0), ECidr(b4, 31, 0)>>, FALSE>> >>),
+       \* refused at connect time: no request is ever read
+       Sess(Cl(b4, 0), 900, << <<<<ECidr(FlipAt(b4, 2), 2, 0)>>, FALSE>>, <<<<ECidr(b4, 2, 0)>>, FALSE>> >>),
+       Sess(Cl(b6, 0), 900, << <<<<EIp(b4, 0)>>, FALSE>>, <<<<>>, FALSE>> >>),
+       \* the secure flag switched at run time
+       Sess(Cl(b4, 0), 2000, << <<<<>>, FALSE>>, <<<<>>, TRUE>>, <<<<>>, FALSE>> >>),
+       Sess(Cl(b4, 0), 1024, << <<<<ECidr(b4, 16, 0)>>, FALSE>>, <<<<ECidr(b4, 16, 0)>>, TRUE>>,
+                               <<<<ECidr(FlipAt(b4, 16), 16, 0)>>, FALSE>>, <<<<ECidr(b4, 16, 0)>>, FALSE>> >>),
+       Sess(Cl(b6, 0), 1023, << <<<<>>, TRUE>>, <<<<EIp(b6, 1)>>, TRUE>>, <<<<EIp(FlipAt(b6, 128), 1)>>, TRUE>> >>)>>
+
 C09Vectors(zz) == Number(Cat(Seq1toN(NB, LAMBDA k : C09PerBase(k))))
+                  \o NumberSess(Cat(Seq1toN(NB, LAMBDA k : G_sessions(Base4(k), Base6(k)))))
 
 -----------------------------------------------------------------------------
 (* C10 *)
@@ -256,7 +290,25 @@ G_bodies(zz) ==
       \o Map(<<0, 1, 3, 4, 5, 255>>, LAMBDA n : CVec("body_name", m, Cred("SYS", "ok", c.uid, c.gid, c.aux, n, 0)))
       \o Map(CutPoints(2, Len(c.aux)), LAMBDA k : CVec("body_cut", m, Cred("SYS", "cut", c.uid, c.gid, c.aux, 2, k)))))))
 
+(* Sessions: several requests with different credentials on ONE connection (a multi-user NFS   *)
+(* client); each request is served under its own credential (PolicyMC!NextRequest).            *)
+CStep(mode, cred) == [cred |-> cred, exp |-> AuthVerdict(ModeClass(Lower(mode)), cred)]
+CSess(mode, creds) == [group |-> "session", mode |-> mode, lower |-> Lower(mode),
+                       steps |-> [i \in 1..Len(creds) |-> CStep(mode, creds[i])]]
+NoneCred == Cred("NONE", "ok", "0", "0", <<>>, 0, 0)
+RandCred(salt) == SysOk(Pick(salt), Pick(salt + 1), [i \in 1..(Rand(salt + 2) % 4) |-> Pick(salt + 2 + i)])
+G_csessions(zz) ==
+  Cat(Seq1toN(5, LAMBDA mi :
+    LET m == <<"all", "root", "none", "", "ROOT">>[mi] IN
+    <<CSess(m, <<SysOk("0", "0", <<"0">>), SysOk("1000", "1000", <<>>), SysOk("1", "0", <<"65535", "0">>), SysOk("0", "0", <<"0">>)>>),
+      CSess(m, <<SysOk("1000", "1000", <<"1">>), SysOk("0", "1", <<>>), NoneCred, SysOk("65535", "65534", <<"0">>)>>),
+      CSess(m, <<NoneCred, SysOk("0", "0", <<>>), Cred("DH", "ok", "0", "0", <<>>, 2, 0), SysOk("4294967295", "2147483648", <<"1000">>)>>),
+      CSess(m, <<Cred("SYS", "cut", "0", "0", <<"0">>, 2, 12), SysOk("1000", "0", <<"0">>), SysOk("0", "1000", <<"1000">>)>>),
+      CSess(m, [i \in 1..4 |-> RandCred(mi * 100 + i * 10)]),
+      CSess(m, [i \in 1..5 |-> RandCred(mi * 100 + 50 + i * 7)])>>))
+
 C10Vectors(zz) == Number(G_exhaustive(zz) \o G_sampled(zz) \o G_flavors(zz) \o G_bodies(zz))
+                  \o NumberSess(G_csessions(zz))
 
 -----------------------------------------------------------------------------
 (* C12: the plan.  The full space is modes x kinds x relations x read-only x 64 masks; the  *)
